@@ -55,6 +55,10 @@ func (f *IgnoreErrors) Call(s *slip.Scope, args slip.List, depth int) (result sl
 	d2 := depth + 1
 	for i := range args {
 		result = slip.EvalArg(s, args, i, d2)
+		switch result.(type) {
+		case *slip.ReturnResult, *GoTo:
+			return result
+		}
 	}
 	return
 }
